@@ -2784,6 +2784,28 @@ impl Translator {
             std::collections::hash_map::Entry::Vacant(v) => {
                 st.funcs_to_generate.push(desc.clone());
                 let label = match &desc.overload_ty {
+                    // a lambda whose own type is not generic but which captures values of a
+                    // generic type is compiled once per instantiation of those captures
+                    None if matches!(&desc.kind, FuncKind::AnonymousFunc { capture_types, .. }
+                        if capture_types.iter().any(|ty| ty.is_overloaded())) =>
+                    {
+                        let FuncKind::AnonymousFunc {
+                            capture_types_concrete,
+                            ..
+                        } = &desc.kind
+                        else {
+                            unreachable!()
+                        };
+                        let mut label_hint = format!("{func_name}__%");
+                        for (i, ty) in capture_types_concrete.iter().enumerate() {
+                            if i != 0 {
+                                label_hint.push(',');
+                            }
+                            label_hint.push_str(&ty.to_string());
+                        }
+                        label_hint.retain(|c| !c.is_whitespace());
+                        make_label(&label_hint)
+                    }
                     None => func_name.clone(),
                     Some(overload_ty) => {
                         let monoty = overload_ty.monotype().unwrap();
